@@ -25,9 +25,13 @@ func init() {
 
 func runC06(c *Ctx) {
 	r := c.R
-	r.Rule("C06.R1", "mid provenance: the id of every mediaSection literal derives only from getMidValue(remote media), the section's own transceiver's Mid(), or a distinct Plan-B constant under a Plan-B guard; every SetMid argument is the remote section's mid or strconv.Itoa(pc.greaterMid) with pc.greaterMid++ executed since the previous use", 13)
-	r.Rule("C06.R2", "populateSDP, per section: the BUNDLE value receives section.id at most once, only on paths where the section was emitted (shouldAddID true: data section, or addTransceiverSDP returned true) and the remote bundle group matches; otherwise the emitted section's port is zeroed; exactly one of the two happens for an emitted section and neither for a rejected one; addTransceiverSDP returns true only after emitting the full section and false only after the rejected (port 0) one", 12)
-	r.Rule("C06.R3", "every path of addTransceiverSDP / addDataMediaSection to the emission of the accepted section passes exactly one setup attribute (from the role parameter), exactly one mid attribute (from the parameter populateSDP binds to section.id), one WithICECredentials(ufrag, pwd) and exactly one direction attribute, and one fingerprint loop over the fingerprint parameter; populateSDP hands the fingerprints to the section builders iff mediaDescriptionFingerprint and emits them at session level iff not", 16)
+	// Instance minima count the semantic facts a rule must establish (one per kind of section source, per
+	// attribute, per table cell, per guarded write …), not the incidental number of sites: a refactor that merges
+	// two sites (one error return instead of two, one literal shared by two arms, a block moved into a helper)
+	// must not trip them, while losing an anchor still does.
+	r.Rule("C06.R1", "mid provenance: the id of every mediaSection literal derives only from getMidValue(remote media), the section's own transceiver's Mid(), or a distinct Plan-B constant under a Plan-B guard; every SetMid argument is the remote section's mid or strconv.Itoa(pc.greaterMid) with pc.greaterMid++ executed since the previous use", 8)
+	r.Rule("C06.R2", "populateSDP, per section: the BUNDLE value receives section.id at most once, only on paths where the section was emitted (shouldAddID true: data section, or addTransceiverSDP returned true) and the remote bundle group matches; otherwise the emitted section's port is zeroed; exactly one of the two happens for an emitted section and neither for a rejected one; addTransceiverSDP returns true only after emitting the full section and false only after the rejected (port 0) one", 10)
+	r.Rule("C06.R3", "every path of addTransceiverSDP / addDataMediaSection to the emission of the accepted section passes exactly one setup attribute (from the role parameter), exactly one mid attribute (from the parameter populateSDP binds to section.id), one WithICECredentials(ufrag, pwd) and exactly one direction attribute, and one fingerprint loop over the fingerprint parameter; populateSDP hands the fingerprints to the section builders iff mediaDescriptionFingerprint and emits them at session level iff not", 14)
 	r.Rule("C06.R4", "fresh mids are unique: same scan rule as C09.R5 (every existing mid raises greaterMid before a fresh one is handed out)", 2)
 	r.Rule("C06.R5", "same rule as C09.R6: a len-based data-section mid is computed after all other sections were appended", 1)
 	r.NotCovered = append(r.NotCovered,
@@ -158,8 +162,18 @@ func c06MidProvenance(env *c06Env, rule string) {
 			continue
 		}
 		if !c06Mentions(fi, func(x ast.Node) bool {
-			cl, ok := x.(*ast.CompositeLit)
-			return ok && c06IsNamed(fi.Pkg.TypesInfo.TypeOf(cl), env.msType)
+			switch e := x.(type) {
+			case *ast.CompositeLit:
+				return c06IsNamed(fi.Pkg.TypesInfo.TypeOf(e), env.msType)
+			case *ast.CallExpr:
+				// a same-package helper that returns a mediaSection literal
+				if fn := core.Callee(fi.Pkg.TypesInfo, e); fn != nil && fn.Pkg() == fi.Pkg.Types {
+					if sig, ok := fn.Type().(*types.Signature); ok && sig.Results().Len() == 1 && types.Identical(sig.Results().At(0).Type(), env.msType) {
+						return true
+					}
+				}
+			}
+			return false
 		}) {
 			continue
 		}
@@ -180,9 +194,14 @@ func c06MidProvenance(env *c06Env, rule string) {
 		})
 		constSeen := map[string]bool{}
 		for _, s := range secs {
-			pos := c.P.Pos(s.Lit.Pos())
+			if s.HelperBody {
+				// the literal of a section-building helper is judged at each call of the helper
+				r.Info(rule, fi.Name()+"|mediaSection{"+s.fieldNames()+"}|helper-body", c.P.Pos(s.Lit.Pos()), "literal returned by a helper: judged at its call sites")
+				continue
+			}
+			pos := c.P.Pos(s.pos())
 			base := fi.Name() + "|mediaSection{" + s.fieldNames() + "}"
-			idExpr, has := s.Fields["id"]
+			src, has := s.idSrc(env)
 			if !has {
 				r.Fail(rule, base+"|id<-(none)", pos, "a media section is built without an id (empty mid)")
 				continue
@@ -191,19 +210,13 @@ func c06MidProvenance(env *c06Env, rule string) {
 				r.Undecided(rule, base+"|in-function-literal", pos, "mediaSection literal inside a function literal: provenance not analysed")
 				continue
 			}
-			src := c06MidSource(env, g, s.Node, idExpr)
 			key := base + "|id<-" + src.Desc
 			switch src.Class {
 			case "remote-mid":
 				r.OK(rule, key, pos, "id is the remote m-section's mid")
 			case "transceiver-mid":
 				// the section must carry exactly that transceiver
-				ok := false
-				if te, has := s.Fields["transceivers"]; has {
-					if cl, isLit := ast.Unparen(te).(*ast.CompositeLit); isLit && len(cl.Elts) == 1 && src.Var != nil && core.VarOf(g.Info, cl.Elts[0]) == src.Var {
-						ok = true
-					}
-				}
+				ok := src.Var != nil && s.soleTransceiver() == src.Var
 				r.Check(ok, rule, key, pos, "id is the mid of the section's own (single) transceiver", "id is taken from a transceiver that is not the one the section carries")
 			case "const":
 				switch {
@@ -361,15 +374,6 @@ func (l *c06Loop) iterDominatedByEdges(target int, edges map[core.EdgeRef]bool) 
 	return !reach[target]
 }
 
-// c06Concat flattens a string concatenation a + b + c.
-func c06Concat(e ast.Expr) []ast.Expr {
-	e = ast.Unparen(e)
-	if be, ok := e.(*ast.BinaryExpr); ok && be.Op == token.ADD {
-		return append(c06Concat(be.X), c06Concat(be.Y)...)
-	}
-	return []ast.Expr{e}
-}
-
 func c06Bundle(env *c06Env, rule string) {
 	c, r := env.c, env.c.R
 	p := c06PopulateShape(env, rule)
@@ -407,14 +411,11 @@ func c06Bundle(env *c06Env, rule string) {
 	initOK := false
 	var strayWrites []ast.Node
 	isSpaceConcat := func(rhs ast.Expr) (ast.Expr, bool) {
-		parts := c06Concat(rhs)
-		if len(parts) != 2 {
+		parts, ok := c06StringParts(info, rhs)
+		if !ok || len(parts) != 2 || !parts[0].IsConst || parts[0].Const != " " || parts[1].IsConst {
 			return nil, false
 		}
-		if s, ok := c06ConstString(info, parts[0]); !ok || s != " " {
-			return nil, false
-		}
-		return parts[1], true
+		return parts[1].Expr, true
 	}
 	var scan func(body ast.Node, inLit *ast.FuncLit)
 	litWrites := map[*ast.FuncLit][]ast.Expr{} // closure -> appended operands
@@ -817,7 +818,73 @@ type c06Emit struct {
 	other  []int              // emissions whose argument cannot be traced to its creation
 	media  map[int]*types.Var // the variable emitted (nil when the argument is an expression)
 	argOf  map[int]ast.Expr
-	create map[int]ast.Expr // root of the builder chain that creates the emitted description
+	create map[int]ast.Expr   // root of the builder chain that creates the emitted description
+	helper map[int]*c06Helper // set when the description is created inside a same-module helper that returns it
+}
+
+// c06Helper describes a same-module function that builds and returns a media description
+// (`descr.WithMedia(rejectedMediaDescription(kind, mid))`): create[n] then lies in the helper's body.
+type c06Helper struct {
+	fi    *core.FuncInfo
+	g     *core.Graph
+	call  *ast.CallExpr // the call, in the emitting function
+	ret   int           // the helper's single return node
+	expr  ast.Expr      // the returned expression
+	media *types.Var    // the returned variable (nil when an expression is returned)
+}
+
+// bound returns the caller's argument bound to helper parameter e (nil when e is not an unassigned parameter of the helper).
+func (h *c06Helper) bound(e ast.Expr) ast.Expr {
+	v := core.VarOf(h.g.Info, e)
+	if v == nil || c06AssignedAnywhere(h.g, v) != 0 {
+		return nil
+	}
+	i := c06IsParam(h.g, v)
+	if i < 0 || i >= len(h.call.Args) || h.call.Ellipsis.IsValid() {
+		return nil
+	}
+	if sig := h.g.Sig(); sig != nil && sig.Variadic() && i == sig.Params().Len()-1 {
+		return nil
+	}
+	return h.call.Args[i]
+}
+
+// c06BuilderHelper recognises root as a call of a same-module function (no receiver chain) with a
+// single return statement that returns a media description, and locates its creation expression.
+func c06BuilderHelper(p *core.Program, info *types.Info, root ast.Expr) (*c06Helper, ast.Expr) {
+	call, ok := ast.Unparen(root).(*ast.CallExpr)
+	if !ok {
+		return nil, nil
+	}
+	fi := p.DeclOf(core.Callee(info, call))
+	if fi == nil || fi.Decl.Body == nil {
+		return nil, nil
+	}
+	hg := p.GraphOf(fi)
+	sig := hg.Sig()
+	if sig == nil || sig.Results().Len() != 1 || !c06IsExtNamed(sig.Results().At(0).Type(), c06SDPPkg, "MediaDescription") {
+		return nil, nil
+	}
+	rets := hg.Returns()
+	if len(rets) != 1 {
+		return nil, nil
+	}
+	ret, _ := hg.Nodes[rets[0]].Ast.(*ast.ReturnStmt)
+	if ret == nil || len(ret.Results) != 1 {
+		return nil, nil
+	}
+	h := &c06Helper{fi: fi, g: hg, call: call, ret: rets[0], expr: ret.Results[0]}
+	var croot ast.Expr
+	if v := core.VarOf(hg.Info, ret.Results[0]); v != nil {
+		h.media = v
+		croot = c06Creation(hg, rets[0], v)
+	} else {
+		_, croot = c06ChainCalls(hg.Info, ret.Results[0])
+	}
+	if croot == nil {
+		return nil, nil
+	}
+	return h, croot
 }
 
 // c06MDLiteral returns the sdp.MediaDescription composite literal e denotes (through & and parentheses).
@@ -904,7 +971,7 @@ func c06Creation(g *core.Graph, at int, v *types.Var) ast.Expr {
 
 func c06Emissions(env *c06Env, fi *core.FuncInfo) *c06Emit {
 	g := env.c.P.GraphOf(fi)
-	em := &c06Emit{fi: fi, g: g, media: map[int]*types.Var{}, argOf: map[int]ast.Expr{}, create: map[int]ast.Expr{}}
+	em := &c06Emit{fi: fi, g: g, media: map[int]*types.Var{}, argOf: map[int]ast.Expr{}, create: map[int]ast.Expr{}, helper: map[int]*c06Helper{}}
 	sig := g.Sig()
 	for i := 0; i < sig.Params().Len(); i++ {
 		if c06IsExtNamed(sig.Params().At(i).Type(), c06SDPPkg, "SessionDescription") {
@@ -928,12 +995,18 @@ func c06Emissions(env *c06Env, fi *core.FuncInfo) *c06Emit {
 			} else {
 				_, root = c06ChainCalls(g.Info, call.Args[0])
 			}
+			cinfo := g.Info
+			if h, croot := c06BuilderHelper(env.c.P, g.Info, root); h != nil {
+				// the description is created by a helper: classify what the helper builds
+				em.helper[n] = h
+				root, cinfo = croot, h.g.Info
+			}
 			em.create[n] = root
 			switch {
 			case root == nil:
 				em.other = append(em.other, n)
-			case c06MDLiteral(g.Info, root) != nil:
-				if zero, known := c06LitPortZero(g.Info, c06MDLiteral(g.Info, root)); known && zero {
+			case c06MDLiteral(cinfo, root) != nil:
+				if zero, known := c06LitPortZero(cinfo, c06MDLiteral(cinfo, root)); known && zero {
 					em.reject = append(em.reject, n)
 				} else if known {
 					em.normal = append(em.normal, n)
@@ -941,7 +1014,7 @@ func c06Emissions(env *c06Env, fi *core.FuncInfo) *c06Emit {
 					em.other = append(em.other, n)
 				}
 			default:
-				if rc, isCall := ast.Unparen(root).(*ast.CallExpr); isCall && c06ExtFunc(g.Info, rc, c06SDPPkg, "NewJSEPMediaDescription") {
+				if rc, isCall := ast.Unparen(root).(*ast.CallExpr); isCall && c06ExtFunc(cinfo, rc, c06SDPPkg, "NewJSEPMediaDescription") {
 					em.normal = append(em.normal, n)
 				} else {
 					em.other = append(em.other, n)
@@ -1016,10 +1089,21 @@ func c06TransceiverReturns(env *c06Env, rule string) {
 
 var c06DirNames = map[string]bool{"sendrecv": true, "sendonly": true, "recvonly": true, "inactive": true}
 
+// c06Where is a function body in which builder calls on a media description are looked for, together
+// with the mapping of its operands to expressions of the root builder function (identity in the root
+// itself; for a helper, a parameter maps to the argument bound to it at the call). toRoot returns nil
+// when the operand cannot be expressed in the root function.
+type c06Where struct {
+	g      *core.Graph
+	m      *types.Var
+	toRoot func(ast.Expr) ast.Expr
+}
+
+// c06AttrKind classifies a builder call found in w.g: any = an attribute of this kind is set,
+// exact = it is set to the expected value (judged in the root function).
 type c06AttrKind struct {
 	name  string
-	exact func(call *ast.CallExpr) bool
-	any   func(call *ast.CallExpr) bool
+	match func(w *c06Where, call *ast.CallExpr) (any, exact bool)
 }
 
 // c06ChainCalls lists the method calls of the receiver chain of e (outermost first) and its root.
@@ -1083,23 +1167,42 @@ func c06CallsOnVar(info *types.Info, a ast.Node, m *types.Var) []*ast.CallExpr {
 	return out
 }
 
-// c06AttrSpanInCallee: span of `any`-matches applied to parameter pv over all paths of callee (depth-bounded).
-func c06AttrSpanInCallee(env *c06Env, fi *core.FuncInfo, pv *types.Var, k *c06AttrKind, depth int) c06Span {
-	g := env.c.P.GraphOf(fi)
-	if g == nil {
-		return c06Span{}
+// c06ParamBinder maps the operands of callee hg to the caller's context: an unassigned parameter
+// becomes outer(argument bound to it); anything else is not expressible (nil).
+func c06ParamBinder(hg *core.Graph, call *ast.CallExpr, outer func(ast.Expr) ast.Expr) func(ast.Expr) ast.Expr {
+	return func(e ast.Expr) ast.Expr {
+		if e == nil {
+			return nil
+		}
+		v := core.VarOf(hg.Info, e)
+		if v == nil || c06AssignedAnywhere(hg, v) != 0 {
+			return nil
+		}
+		i := c06IsParam(hg, v)
+		sig := hg.Sig()
+		if i < 0 || i >= len(call.Args) || call.Ellipsis.IsValid() || sig == nil || (sig.Variadic() && i == sig.Params().Len()-1) {
+			return nil
+		}
+		return outer(call.Args[i])
 	}
-	w := c06AttrWeight(env, g, pv, k, false, depth)
-	sp, ok := c06PathCount(g, g.Entry, g.Exit, nil, nil, w)
-	if !ok {
-		return c06Span{}
-	}
-	return sp
 }
 
-// c06AttrWeight returns the per-node weight of attribute kind k applied to media variable m.
-func c06AttrWeight(env *c06Env, g *core.Graph, m *types.Var, k *c06AttrKind, exact bool, depth int) func(int) c06Span {
+// c06AttrWeight returns the per-node weight of attribute kind k applied to w.m in w.g. Builder calls made by
+// same-module callees that receive the media description, and by a helper that creates and returns it, are
+// counted with their operands mapped back through the parameter bindings.
+func c06AttrWeight(env *c06Env, w *c06Where, k *c06AttrKind, exact bool, depth int) func(int) c06Span {
+	g := w.g
 	cache := map[int]c06Span{}
+	count := func(hw *c06Where, calls []*ast.CallExpr) int {
+		n := 0
+		for _, call := range calls {
+			an, ex := k.match(hw, call)
+			if (exact && ex) || (!exact && an) {
+				n++
+			}
+		}
+		return n
+	}
 	return func(n int) c06Span {
 		if v, ok := cache[n]; ok {
 			return v
@@ -1107,16 +1210,8 @@ func c06AttrWeight(env *c06Env, g *core.Graph, m *types.Var, k *c06AttrKind, exa
 		var sp c06Span
 		a := g.Nodes[n].Ast
 		if a != nil {
-			for _, call := range c06CallsOnVar(g.Info, a, m) {
-				hit := k.any(call)
-				if exact {
-					hit = k.exact(call)
-				}
-				if hit {
-					sp = sp.add(c06Span{1, 1})
-				}
-			}
-			// same-module callees receiving m
+			d := count(w, c06CallsOnVar(g.Info, a, w.m))
+			sp = sp.add(c06Span{d, d})
 			if depth > 0 {
 				for _, call := range core.CallsIn(a) {
 					fn := core.Callee(g.Info, call)
@@ -1124,10 +1219,34 @@ func c06AttrWeight(env *c06Env, g *core.Graph, m *types.Var, k *c06AttrKind, exa
 					if fi == nil || fi.Decl.Body == nil {
 						continue
 					}
+					hg := env.c.P.GraphOf(fi)
 					sig := fn.Type().(*types.Signature)
+					// (a) the callee receives the media description
 					for i, arg := range call.Args {
-						if core.VarOf(g.Info, arg) == m && i < sig.Params().Len() {
-							sp = sp.add(c06AttrSpanInCallee(env, fi, sig.Params().At(i), k, depth-1))
+						if core.VarOf(g.Info, arg) == w.m && i < sig.Params().Len() && !(sig.Variadic() && i == sig.Params().Len()-1) {
+							hw := &c06Where{g: hg, m: sig.Params().At(i), toRoot: c06ParamBinder(hg, call, w.toRoot)}
+							if hs, ok := c06PathCount(hg, hg.Entry, hg.Exit, nil, nil, c06AttrWeight(env, hw, k, exact, depth-1)); ok {
+								sp = sp.add(hs)
+							}
+						}
+					}
+					// (b) the callee creates the description that this node assigns to the media variable
+					receivesM := false
+					for _, arg := range call.Args {
+						if core.VarOf(g.Info, arg) == w.m {
+							receivesM = true
+						}
+					}
+					if h, _ := c06BuilderHelper(env.c.P, g.Info, call); h != nil && !receivesM && c06AssignsFrom(g.Info, a, w.m, call) {
+						hw := &c06Where{g: h.g, m: h.media, toRoot: c06ParamBinder(h.g, call, w.toRoot)}
+						if h.media != nil {
+							if hs, ok := c06PathCount(h.g, h.g.Entry, h.ret, nil, nil, c06AttrWeight(env, hw, k, exact, depth-1)); ok {
+								sp = sp.add(hs)
+							}
+						} else {
+							chain, _ := c06ChainCalls(h.g.Info, h.expr)
+							d := count(hw, chain)
+							sp = sp.add(c06Span{d, d})
 						}
 					}
 				}
@@ -1136,6 +1255,36 @@ func c06AttrWeight(env *c06Env, g *core.Graph, m *types.Var, k *c06AttrKind, exa
 		cache[n] = sp
 		return sp
 	}
+}
+
+// c06AssignsFrom reports whether node a assigns to m an expression whose builder chain is rooted at call.
+func c06AssignsFrom(info *types.Info, a ast.Node, m *types.Var, call *ast.CallExpr) bool {
+	hit := false
+	check := func(lhs ast.Expr, obj types.Object, rhs ast.Expr) {
+		if (lhs != nil && core.VarOf(info, lhs) == m) || (obj != nil && obj == types.Object(m)) {
+			if _, root := c06ChainCalls(info, rhs); ast.Unparen(root) == ast.Expr(call) {
+				hit = true
+			}
+		}
+	}
+	core.InspectShallow(a, func(x ast.Node) bool {
+		switch s := x.(type) {
+		case *ast.AssignStmt:
+			if len(s.Lhs) == len(s.Rhs) {
+				for i, l := range s.Lhs {
+					check(l, nil, s.Rhs[i])
+				}
+			}
+		case *ast.ValueSpec:
+			if len(s.Values) == len(s.Names) {
+				for i, nm := range s.Names {
+					check(nil, info.Defs[nm], s.Values[i])
+				}
+			}
+		}
+		return true
+	})
+	return hit
 }
 
 // c06MidParam finds the parameter of fi that populateSDP binds to section.id.
@@ -1215,65 +1364,112 @@ func c06SectionAttrs(env *c06Env, rule string) {
 		target := em.normal[0]
 		m := em.media[target]
 		sig := g.Sig()
-		isMD := func(call *ast.CallExpr, name string) bool {
-			return c06ExtMethod(info, call, c06SDPPkg, "MediaDescription", name)
+		rootW := &c06Where{g: g, m: m, toRoot: func(e ast.Expr) ast.Expr { return e }}
+		isMD := func(ci *types.Info, call *ast.CallExpr, name string) bool {
+			return c06ExtMethod(ci, call, c06SDPPkg, "MediaDescription", name)
 		}
-		paramOfExt := func(e ast.Expr, typeName string) bool {
+		rootParam := func(e ast.Expr) *types.Var {
+			if e == nil {
+				return nil
+			}
 			v := core.VarOf(info, e)
-			return v != nil && c06IsParam(g, v) >= 0 && c06IsExtNamed(v.Type(), c06SDPPkg, typeName) && c06AssignedAnywhere(g, v) == 0
+			if v == nil || c06IsParam(g, v) < 0 || c06AssignedAnywhere(g, v) != 0 {
+				return nil
+			}
+			return v
 		}
-		keyIs := func(call *ast.CallExpr, k string) bool {
-			if !isMD(call, "WithValueAttribute") || len(call.Args) != 2 {
+		keyIs := func(ci *types.Info, call *ast.CallExpr, k string) bool {
+			if !isMD(ci, call, "WithValueAttribute") || len(call.Args) != 2 {
 				return false
 			}
-			s, ok := c06ConstString(info, call.Args[0])
+			s, ok := c06ConstString(ci, call.Args[0])
 			return ok && s == k
 		}
-		kinds := []*c06AttrKind{
-			{name: "setup",
-				any: func(call *ast.CallExpr) bool { return keyIs(call, "setup") },
-				exact: func(call *ast.CallExpr) bool {
-					if !keyIs(call, "setup") {
-						return false
-					}
-					vc, ok := ast.Unparen(call.Args[1]).(*ast.CallExpr)
-					if !ok || !c06ExtMethod(info, vc, c06SDPPkg, "ConnectionRole", "String") {
-						return false
-					}
-					return paramOfExt(c06Recv(info, vc), "ConnectionRole")
-				}},
-			{name: "mid",
-				any: func(call *ast.CallExpr) bool { return keyIs(call, "mid") },
-				exact: func(call *ast.CallExpr) bool {
-					return keyIs(call, "mid") && midParam != nil && core.VarOf(info, call.Args[1]) == midParam
-				}},
-			{name: "ice-credentials",
-				any: func(call *ast.CallExpr) bool { return isMD(call, "WithICECredentials") },
-				exact: func(call *ast.CallExpr) bool {
-					if !isMD(call, "WithICECredentials") || len(call.Args) != 2 {
-						return false
-					}
-					r0, _, ok0 := c06FieldPath(info, call.Args[0])
-					r1, _, ok1 := c06FieldPath(info, call.Args[1])
-					return ok0 && ok1 && r0 == r1 && c06IsParam(g, r0) >= 0 && c06AssignedAnywhere(g, r0) == 0 &&
-						core.FieldOf(info, call.Args[0]) == ufrag && core.FieldOf(info, call.Args[1]) == pwd
-				}},
-			{name: "direction",
-				any: func(call *ast.CallExpr) bool {
-					if !isMD(call, "WithPropertyAttribute") || len(call.Args) != 1 {
-						return false
-					}
-					if s, ok := c06ConstString(info, call.Args[0]); ok {
-						return c06DirNames[s]
-					}
-					vc, ok := ast.Unparen(call.Args[0]).(*ast.CallExpr)
-					return ok && core.IsCallTo(info, vc, dirString.Obj)
-				}},
+		// rootOperand: pick extracts a sub-operand (e.g. the receiver of X.String()) from e, tried in the body
+		// where e is written and, failing that, after mapping e itself to the root function
+		rootOperand := func(w *c06Where, e ast.Expr, pick func(ci *types.Info, e ast.Expr) ast.Expr) ast.Expr {
+			if sub := pick(w.g.Info, e); sub != nil {
+				if re := w.toRoot(sub); re != nil {
+					return re
+				}
+			}
+			if re := w.toRoot(e); re != nil {
+				return pick(info, re)
+			}
+			return nil
 		}
-		kinds[3].exact = kinds[3].any
+		stringRecv := func(typeName string) func(ci *types.Info, e ast.Expr) ast.Expr {
+			return func(ci *types.Info, e ast.Expr) ast.Expr {
+				vc, ok := ast.Unparen(e).(*ast.CallExpr)
+				if !ok || !c06ExtMethod(ci, vc, c06SDPPkg, typeName, "String") {
+					return nil
+				}
+				return c06Recv(ci, vc)
+			}
+		}
+		fieldBase := func(fv *types.Var) func(ci *types.Info, e ast.Expr) ast.Expr {
+			return func(ci *types.Info, e ast.Expr) ast.Expr {
+				se, ok := ast.Unparen(e).(*ast.SelectorExpr)
+				if !ok || core.FieldOf(ci, se) != fv {
+					return nil
+				}
+				return se.X
+			}
+		}
+		isDirValue := func(ci *types.Info, e ast.Expr) bool {
+			if s, ok := c06ConstString(ci, e); ok {
+				return c06DirNames[s]
+			}
+			vc, ok := ast.Unparen(e).(*ast.CallExpr)
+			return ok && core.IsCallTo(ci, vc, dirString.Obj)
+		}
+		kinds := []*c06AttrKind{
+			{name: "setup", match: func(w *c06Where, call *ast.CallExpr) (bool, bool) {
+				ci := w.g.Info
+				if !keyIs(ci, call, "setup") {
+					return false, false
+				}
+				pv := rootParam(rootOperand(w, call.Args[1], stringRecv("ConnectionRole")))
+				return true, pv != nil && c06IsExtNamed(pv.Type(), c06SDPPkg, "ConnectionRole")
+			}},
+			{name: "mid", match: func(w *c06Where, call *ast.CallExpr) (bool, bool) {
+				if !keyIs(w.g.Info, call, "mid") {
+					return false, false
+				}
+				re := w.toRoot(call.Args[1])
+				return true, midParam != nil && re != nil && core.VarOf(info, re) == midParam
+			}},
+			{name: "ice-credentials", match: func(w *c06Where, call *ast.CallExpr) (bool, bool) {
+				if !isMD(w.g.Info, call, "WithICECredentials") {
+					return false, false
+				}
+				if len(call.Args) != 2 {
+					return true, false
+				}
+				p0 := rootParam(rootOperand(w, call.Args[0], fieldBase(ufrag)))
+				p1 := rootParam(rootOperand(w, call.Args[1], fieldBase(pwd)))
+				return true, p0 != nil && p0 == p1
+			}},
+			{name: "direction", match: func(w *c06Where, call *ast.CallExpr) (bool, bool) {
+				ci := w.g.Info
+				if !isMD(ci, call, "WithPropertyAttribute") || len(call.Args) != 1 {
+					return false, false
+				}
+				if isDirValue(ci, call.Args[0]) {
+					return true, true
+				}
+				// a helper parameter that the caller binds to a direction string
+				if w.g != g {
+					if re := w.toRoot(call.Args[0]); re != nil && isDirValue(info, re) {
+						return true, true
+					}
+				}
+				return false, false
+			}},
+		}
 		for _, k := range kinds {
-			ex, ok1 := c06PathCount(g, g.Entry, target, nil, nil, c06AttrWeight(env, g, m, k, true, 0))
-			an, ok2 := c06PathCount(g, g.Entry, target, nil, nil, c06AttrWeight(env, g, m, k, false, 2))
+			ex, ok1 := c06PathCount(g, g.Entry, target, nil, nil, c06AttrWeight(env, rootW, k, true, 2))
+			an, ok2 := c06PathCount(g, g.Entry, target, nil, nil, c06AttrWeight(env, rootW, k, false, 2))
 			r.Cells += 2
 			key := fi.Name() + "|accepted-section|" + k.name
 			pos := c.P.Pos(g.PosOf(target))
@@ -1285,68 +1481,103 @@ func c06SectionAttrs(env *c06Env, rule string) {
 					"the accepted section carries "+an.String()+" direction attributes on some path to its emission (exactly one required)")
 			case ex == c06Span{1, 1} && an == c06Span{1, 1}:
 				r.OK(rule, key, pos, "set exactly once, from the expected parameter, on every path to the emission")
-			case ex.Min == 0 && an.Min >= 1 && an == (c06Span{1, 1}):
-				if k.name == "mid" || k.name == "setup" || k.name == "ice-credentials" {
-					// present once, but not from the expected source
-					if w := c06AttrWeight(env, g, m, k, false, 0); func() bool { sp, _ := c06PathCount(g, g.Entry, target, nil, nil, w); return sp.Min == 0 }() {
-						r.Undecided(rule, key, pos, "the attribute is set inside a helper; its value cannot be traced to the parameter")
-					} else {
-						r.Fail(rule, key, pos, "the "+k.name+" attribute of the accepted section is not taken from the parameter the caller provides (mid: the id populateSDP uses for BUNDLE; setup: the negotiated role; ICE: ufrag then password)")
-					}
-				}
+			case ex.Min == 0 && an == (c06Span{1, 1}):
+				r.Fail(rule, key, pos, "the "+k.name+" attribute of the accepted section is not taken from the parameter the caller provides (mid: the id populateSDP uses for BUNDLE; setup: the negotiated role; ICE: ufrag then password)")
 			default:
 				r.Fail(rule, key, pos, sprintf("on the paths to the emission of the accepted section the %s attribute is set %s time(s) from the expected parameter and %s time(s) in total (exactly once required)", k.name, ex, an))
 			}
 		}
-		// fingerprints: one range loop over the []DTLSFingerprint parameter whose body applies WithFingerprint(f.Algorithm, …f.Value…) to the media
+		// fingerprints: one range loop over the []DTLSFingerprint parameter whose body applies WithFingerprint(f.Algorithm, …f.Value…)
+		// to the media description; the loop may live in a helper that receives both
 		var fpParam *types.Var
 		for i := 0; i < sig.Params().Len(); i++ {
 			if sl, ok := sig.Params().At(i).Type().(*types.Slice); ok && c06IsNamed(sl.Elem(), c.P.Named("", "DTLSFingerprint")) {
 				fpParam = sig.Params().At(i)
 			}
 		}
-		fpNodes := map[int]bool{}
-		for _, l := range c06RangeLoops(g) {
-			if fpParam == nil || core.VarOf(info, l.Range.X) != fpParam || l.ValueVar == nil {
-				continue
-			}
-			good := false
-			for n := range l.Body {
-				if g.Nodes[n].Ast == nil {
-					continue
-				}
-				for _, call := range c06CallsOnVar(info, g.Nodes[n].Ast, m) {
-					if !isMD(call, "WithFingerprint") || len(call.Args) != 2 {
+		var fpWeight func(cg *core.Graph, mv, fpv *types.Var, depth int) func(int) c06Span
+		fpWeight = func(cg *core.Graph, mv, fpv *types.Var, depth int) func(int) c06Span {
+			ci := cg.Info
+			fpNodes := map[int]bool{}
+			if fpv != nil && c06AssignedAnywhere(cg, fpv) == 0 {
+				for _, l := range c06RangeLoops(cg) {
+					if core.VarOf(ci, l.Range.X) != fpv || l.ValueVar == nil {
 						continue
 					}
-					r0, _, _ := c06FieldPath(info, call.Args[0])
-					usesValue := false
-					ast.Inspect(call.Args[1], func(x ast.Node) bool {
-						if se, ok := x.(*ast.SelectorExpr); ok && core.FieldOf(info, se) == fpValue && core.VarOf(info, se.X) == l.ValueVar {
-							usesValue = true
+					good := false
+					for n := range l.Body {
+						if cg.Nodes[n].Ast == nil {
+							continue
 						}
-						return true
-					})
-					if r0 == l.ValueVar && core.FieldOf(info, call.Args[0]) == fpAlgo && usesValue {
-						good = true
+						for _, call := range c06CallsOnVar(ci, cg.Nodes[n].Ast, mv) {
+							if !isMD(ci, call, "WithFingerprint") || len(call.Args) != 2 {
+								continue
+							}
+							r0, _, _ := c06FieldPath(ci, call.Args[0])
+							usesValue := false
+							ast.Inspect(call.Args[1], func(x ast.Node) bool {
+								if se, ok := x.(*ast.SelectorExpr); ok && core.FieldOf(ci, se) == fpValue && core.VarOf(ci, se.X) == l.ValueVar {
+									usesValue = true
+								}
+								return true
+							})
+							if r0 == l.ValueVar && core.FieldOf(ci, call.Args[0]) == fpAlgo && usesValue {
+								good = true
+							}
+						}
+					}
+					if good {
+						// the operand node of the range is evaluated once, before the loop
+						for _, nd := range cg.Nodes {
+							if nd.Ast == ast.Node(l.Range.X) {
+								fpNodes[nd.ID] = true
+							}
+						}
 					}
 				}
 			}
-			if good {
-				// the operand node of the range is evaluated once, before the loop
-				for _, nd := range g.Nodes {
-					if nd.Ast == ast.Node(l.Range.X) {
-						fpNodes[nd.ID] = true
+			cache := map[int]c06Span{}
+			return func(n int) c06Span {
+				if v, ok := cache[n]; ok {
+					return v
+				}
+				var sp c06Span
+				if fpNodes[n] {
+					sp = c06Span{1, 1}
+				}
+				if a := cg.Nodes[n].Ast; a != nil && depth > 0 && fpv != nil {
+					for _, call := range core.CallsIn(a) {
+						fn := core.Callee(ci, call)
+						hfi := c.P.DeclOf(fn)
+						if hfi == nil || hfi.Decl.Body == nil {
+							continue
+						}
+						hsig := fn.Type().(*types.Signature)
+						var hm, hf *types.Var
+						for i, arg := range call.Args {
+							if i >= hsig.Params().Len() || (hsig.Variadic() && i == hsig.Params().Len()-1) {
+								continue
+							}
+							switch core.VarOf(ci, arg) {
+							case mv:
+								hm = hsig.Params().At(i)
+							case fpv:
+								hf = hsig.Params().At(i)
+							}
+						}
+						if hm != nil && hf != nil {
+							hg := c.P.GraphOf(hfi)
+							if hs, ok := c06PathCount(hg, hg.Entry, hg.Exit, nil, nil, fpWeight(hg, hm, hf, depth-1)); ok {
+								sp = sp.add(hs)
+							}
+						}
 					}
 				}
+				cache[n] = sp
+				return sp
 			}
 		}
-		sp, ok := c06PathCount(g, g.Entry, target, nil, nil, func(n int) c06Span {
-			if fpNodes[n] {
-				return c06Span{1, 1}
-			}
-			return c06Span{}
-		})
+		sp, ok := c06PathCount(g, g.Entry, target, nil, nil, fpWeight(g, m, fpParam, 2))
 		r.Cells++
 		r.Check(ok && sp == c06Span{1, 1}, rule, fi.Name()+"|accepted-section|fingerprint-loop", c.P.Pos(g.PosOf(target)),
 			"every path to the emission runs one loop adding WithFingerprint(f.Algorithm, f.Value) for the fingerprint parameter", "the accepted section passes "+sp.String()+" fingerprint loops over the fingerprint parameter (with media-level fingerprints enabled the section would carry none, or duplicates)")
